@@ -18,6 +18,8 @@
                                             an OffsetCommit request reached the coordinator
      close_call joined / close_ret          offsetManager.Close()
      store     vals [[p,off,meta]..]        the simulated coordinator's store (integrity check)
+     err       p, what                      an error read from the Errors() channel of p (recorded before the
+                                            commit_ret / close_ret of the call that produced it)
 
    Clauses (the sentences of the property):
      committed_was_marked, store_backwards_only_after_reset, mark_never_lowers,
@@ -36,9 +38,9 @@ EXTENDS Integers, Sequences, FiniteSets, TLC, Json
 Trace == ndJsonDeserialize("trace.ndjson")
 
 VARIABLES l, viol, cfg, pend, asked, touched, store, winLow, accLow, inFlight, flightMark,
-          reqs, closing, joined, finalsOk, refused, st
+          reqs, closing, joined, finalsOk, refused, errs, cerr, st
 vars == <<l, viol, cfg, pend, asked, touched, store, winLow, accLow, inFlight, flightMark,
-          reqs, closing, joined, finalsOk, refused, st>>
+          reqs, closing, joined, finalsOk, refused, errs, cerr, st>>
 
 E == Trace[l]
 V(c) == {<<E.t, E.i, c>>}
@@ -52,10 +54,11 @@ Parts == DOMAIN pend
 \* what NextOffset must return for pending position x
 Expected(x) == IF x.off >= 0 THEN x ELSE Pos(cfg.initial, "")
 
-NoCfg == [mode |-> "none", auto |-> FALSE, retry |-> 0, initial |-> -1]
+NoCfg == [mode |-> "none", auto |-> FALSE, retry |-> 0, initial |-> -1, errors |-> FALSE]
 Stat0 == [traces |-> 0, marks |-> 0, effective |-> 0, flight_marks |-> 0, requests |-> 0,
           blocks |-> 0, flight_recommitted |-> 0, backwards_after_reset |-> 0, next_reads |-> 0,
           closes_premise |-> 0, closes |-> 0, faulty_requests |-> 0, closes_retried_partial_refusal |-> 0, closes_exhausted |-> 0,
+          closes_unsteered |-> 0, commits_unsteered |-> 0, errors_delivered |-> 0,
           sd_returns |-> 0, sd_hangs |-> 0, sd_panics |-> 0, sd_errors_channels_closed |-> 0]
 Bump(f) == [st EXCEPT ![f] = @ + 1]
 BumpBy(s, f, n) == [s EXCEPT ![f] = @ + n]
@@ -63,14 +66,14 @@ BumpBy(s, f, n) == [s EXCEPT ![f] = @ + n]
 Init == /\ l = 1 /\ viol = {} /\ cfg = NoCfg
         /\ pend = <<>> /\ asked = <<>> /\ touched = <<>> /\ store = <<>> /\ winLow = <<>> /\ accLow = <<>>
         /\ inFlight = FALSE /\ flightMark = <<>> /\ reqs = 0 /\ closing = FALSE /\ joined = FALSE
-        /\ finalsOk = TRUE /\ refused = <<>> /\ st = Stat0
+        /\ finalsOk = TRUE /\ refused = <<>> /\ errs = <<>> /\ cerr = <<>> /\ st = Stat0
 
 TReset ==
   /\ E.ev = "reset"
   /\ LET ini == ToSet(E.init)
          ps == {x[1] : x \in ini}
          I(p) == LET x == CHOOSE y \in ini : y[1] = p IN Pos(x[2], x[3])
-     IN /\ cfg' = [mode |-> E.mode, auto |-> E.auto, retry |-> E.retry, initial |-> E.initial]
+     IN /\ cfg' = [mode |-> E.mode, auto |-> E.auto, retry |-> E.retry, initial |-> E.initial, errors |-> E.errors]
         /\ pend' = [p \in ps |-> I(p)]
         /\ store' = [p \in ps |-> I(p)]
         /\ asked' = [p \in ps |-> {}]
@@ -79,6 +82,8 @@ TReset ==
         /\ accLow' = [p \in ps |-> Inf]
         /\ flightMark' = [p \in ps |-> FALSE]
         /\ refused' = [p \in ps |-> 0]
+        /\ errs' = [p \in ps |-> 0]
+        /\ cerr' = [p \in ps |-> 0]
   /\ inFlight' = FALSE /\ reqs' = 0 /\ closing' = FALSE /\ joined' = FALSE /\ finalsOk' = TRUE
   /\ st' = Bump("traces")
   /\ UNCHANGED viol
@@ -110,7 +115,7 @@ TMarkLike(isMark) ==
      ELSE UNCHANGED <<pend, asked, touched, flightMark, winLow>>
   /\ st' = BumpBy(BumpBy(BumpBy(st, "marks", 1), "effective", IF eff THEN 1 ELSE 0),
                   "flight_marks", IF eff /\ inFlight THEN 1 ELSE 0)
-  /\ UNCHANGED <<cfg, store, accLow, inFlight, reqs, closing, joined, finalsOk, refused>>
+  /\ UNCHANGED <<cfg, store, accLow, inFlight, reqs, closing, joined, finalsOk, refused, errs, cerr>>
 
 TMark == E.ev = "mark" /\ TMarkLike(TRUE)
 TResetOff == E.ev = "resetoff" /\ TMarkLike(FALSE)
@@ -119,11 +124,12 @@ TNext ==
   /\ E.ev = "next"
   /\ viol' = viol \cup When(E.p \in Parts /\ Pos(E.off, E.meta) # Expected(pend[E.p]), "next_offset_is_pending_or_initial")
   /\ st' = Bump("next_reads")
-  /\ UNCHANGED <<cfg, pend, asked, touched, store, winLow, accLow, inFlight, flightMark, reqs, closing, joined, finalsOk, refused>>
+  /\ UNCHANGED <<cfg, pend, asked, touched, store, winLow, accLow, inFlight, flightMark, reqs, closing, joined, finalsOk, refused, errs, cerr>>
 
 TCommitCall ==
   /\ E.ev = "commit_call"
   /\ reqs' = 0 /\ inFlight' = FALSE
+  /\ errs' = [p \in Parts |-> 0] /\ cerr' = [p \in Parts |-> 0]
   /\ UNCHANGED <<viol, cfg, pend, asked, touched, store, winLow, accLow, flightMark, closing, joined, finalsOk, refused, st>>
 
 \* positions that are pending but not stored: the next commit has to carry them
@@ -135,9 +141,14 @@ UnsentClauses(ps) ==
 TCommitRet ==
   /\ E.ev = "commit_ret"
   \* Commit() returned without having sent anything although a position is pending
-  /\ viol' = viol \cup (IF cfg.mode \in {"seq", "win"} /\ reqs = 0 THEN UnsentClauses(Unsent({})) ELSE {})
+  \* ... unless the flush failed on the client side (coordinator lookup, dial, connection): then an error was
+  \* delivered on the Errors() channels ("err" events) and no verdict is given for this Commit (unsteered)
+  /\ LET applies == cfg.mode \in {"seq", "win"} /\ reqs = 0 /\ Unsent({}) # {}
+         steered == cfg.errors /\ \A p \in Parts : errs[p] = 0
+     IN /\ viol' = viol \cup (IF applies /\ steered THEN UnsentClauses(Unsent({})) ELSE {})
+        /\ st' = BumpBy(st, "commits_unsteered", IF applies /\ ~steered THEN 1 ELSE 0)
   /\ inFlight' = FALSE
-  /\ UNCHANGED <<cfg, pend, asked, touched, store, winLow, accLow, flightMark, reqs, closing, joined, finalsOk, refused, st>>
+  /\ UNCHANGED <<cfg, pend, asked, touched, store, winLow, accLow, flightMark, reqs, closing, joined, finalsOk, refused, errs, cerr>>
 
 \* an OffsetCommit request reached the coordinator; E.applied is what it stored
 TCreq ==
@@ -160,6 +171,12 @@ TCreq ==
      /\ finalsOk' = IF closing THEN finalsOk /\ allok ELSE finalsOk
      \* final attempts that carried p and did not get it stored
      /\ refused' = [p \in Parts |-> IF closing /\ p \notin ap /\ (\E b \in blocks : b[1] = p) THEN refused[p] + 1 ELSE refused[p]]
+     \* errors the client must deliver to p's Errors() channel because of what the coordinator did with this
+     \* request: a connection failure reaches every partition still managed, the report / default / missing-block
+     \* classes reach the partition concerned (redispatch and load-in-progress are silent)
+     /\ cerr' = [p \in Parts |-> IF E.conn # "none" \/ (\E k \in ToSet(E.ks) : k[1] = p /\ k[2] \in {"report", "unknown", "missing"})
+                                  THEN cerr[p] + 1 ELSE cerr[p]]
+     /\ UNCHANGED errs
      /\ flightMark' = [p \in Parts |-> IF p \in recommitted THEN FALSE ELSE flightMark[p]]
      /\ st' = BumpBy(BumpBy(BumpBy(BumpBy(BumpBy(st, "requests", 1), "blocks", Cardinality(blocks)),
                      "flight_recommitted", Cardinality(recommitted)),
@@ -172,37 +189,52 @@ TCreq ==
 TCloseCall ==
   /\ E.ev = "close_call"
   /\ closing' = TRUE /\ joined' = E.joined /\ finalsOk' = TRUE /\ inFlight' = FALSE /\ reqs' = 0
-  /\ refused' = [p \in Parts |-> 0]
+  /\ refused' = [p \in Parts |-> 0] /\ errs' = [p \in Parts |-> 0] /\ cerr' = [p \in Parts |-> 0]
   /\ UNCHANGED <<viol, cfg, pend, asked, touched, store, winLow, accLow, flightMark, st>>
 
 \* Close returned: auto-commit, markers joined before Close, every final attempt accepted
 TCloseRet ==
   /\ E.ev = "close_ret"
-  /\ LET premise == cfg.auto /\ joined /\ finalsOk IN
-     /\ viol' = viol \cup When(premise /\ \E p \in Parts : touched[p] /\ store[p] # pend[p],
-                               "closed_and_accepted_implies_store_equals_last_mark")
-          \* no mark is lost at Close unless the final attempts were really exhausted FOR THAT PARTITION:
-          \* Retry.Max + 1 final requests carried it and the coordinator refused it every time
-          \cup When(cfg.auto /\ joined /\ \E p \in Parts : touched[p] /\ store[p] # pend[p] /\ refused[p] < cfg.retry + 1,
-                    "close_gives_up_only_after_retry_max_refusals")
-     /\ st' = BumpBy(BumpBy(BumpBy(BumpBy(st, "closes", 1), "closes_premise", IF premise THEN 1 ELSE 0),
+  /\ LET premise == cfg.auto /\ joined /\ finalsOk
+         lost == {p \in Parts : touched[p] /\ store[p] # pend[p]}
+         \* explicit premise of both Close clauses: every failed final attempt is one the coordinator saw. A final
+         \* attempt that failed on the client side (coordinator lookup, dial, connection reset) consumes Retry.Max too
+         \* and delivers an error to every partition still dirty: when a lost partition received more errors than the
+         \* coordinator's own answers explain - or errors are not observable - the Close is unsteered: no verdict
+         steered == cfg.errors /\ \A p \in lost : errs[p] <= cerr[p]
+         v1 == premise /\ lost # {}
+         \* no mark is lost at Close unless the final attempts were really exhausted FOR THAT PARTITION:
+         \* Retry.Max + 1 final requests carried it and the coordinator refused it every time
+         v2 == cfg.auto /\ joined /\ \E p \in lost : refused[p] < cfg.retry + 1
+     IN
+     /\ viol' = viol \cup When(v1 /\ steered, "closed_and_accepted_implies_store_equals_last_mark")
+                      \cup When(v2 /\ steered, "close_gives_up_only_after_retry_max_refusals")
+     /\ st' = BumpBy(BumpBy(BumpBy(BumpBy(BumpBy(st, "closes", 1), "closes_premise", IF premise THEN 1 ELSE 0),
                      "closes_retried_partial_refusal",
-                     IF cfg.auto /\ joined /\ ~finalsOk /\ (\A p \in Parts : touched[p] => store[p] = pend[p]) THEN 1 ELSE 0),
+                     IF cfg.auto /\ joined /\ ~finalsOk /\ lost = {} THEN 1 ELSE 0),
                      "closes_exhausted",
-                     IF cfg.auto /\ joined /\ (\E p \in Parts : touched[p] /\ store[p] # pend[p] /\ refused[p] >= cfg.retry + 1) THEN 1 ELSE 0)
-  /\ UNCHANGED <<cfg, pend, asked, touched, store, winLow, accLow, inFlight, flightMark, reqs, closing, joined, finalsOk, refused>>
+                     IF cfg.auto /\ joined /\ (\E p \in lost : refused[p] >= cfg.retry + 1) THEN 1 ELSE 0),
+                     "closes_unsteered", IF (v1 \/ v2) /\ ~steered THEN 1 ELSE 0)
+  /\ UNCHANGED <<cfg, pend, asked, touched, store, winLow, accLow, inFlight, flightMark, reqs, closing, joined, finalsOk, refused, errs, cerr>>
+
+\* an error delivered on the Errors() channel of partition p
+TErr ==
+  /\ E.ev = "err"
+  /\ errs' = [p \in Parts |-> IF p = E.p THEN errs[p] + 1 ELSE errs[p]]
+  /\ st' = Bump("errors_delivered")
+  /\ UNCHANGED <<viol, cfg, pend, asked, touched, store, winLow, accLow, inFlight, flightMark, reqs, closing, joined, finalsOk, refused, cerr>>
 
 \* integrity of the simulated coordinator: its store is what the creq events said it applied
 TStore ==
   /\ E.ev = "store"
   /\ viol' = viol \cup When(\E x \in ToSet(E.vals) : x[1] \in Parts /\ store[x[1]] # Pos(x[2], x[3]), "harness_store_mismatch")
-  /\ UNCHANGED <<cfg, pend, asked, touched, store, winLow, accLow, inFlight, flightMark, reqs, closing, joined, finalsOk, refused, st>>
+  /\ UNCHANGED <<cfg, pend, asked, touched, store, winLow, accLow, inFlight, flightMark, reqs, closing, joined, finalsOk, refused, errs, cerr, st>>
 
 TNote == /\ E.ev \in {"note", "lookup"}
-         /\ UNCHANGED <<viol, cfg, pend, asked, touched, store, winLow, accLow, inFlight, flightMark, reqs, closing, joined, finalsOk, refused, st>>
+         /\ UNCHANGED <<viol, cfg, pend, asked, touched, store, winLow, accLow, inFlight, flightMark, reqs, closing, joined, finalsOk, refused, errs, cerr, st>>
 
 \* ---- shutdown family: the calls were awaited by a quiescence-aware watchdog
-Rest == <<cfg, pend, asked, touched, store, winLow, accLow, inFlight, flightMark, reqs, closing, joined, finalsOk, refused>>
+Rest == <<cfg, pend, asked, touched, store, winLow, accLow, inFlight, flightMark, reqs, closing, joined, finalsOk, refused, errs, cerr>>
 TSdRet ==
   /\ E.ev = "sd_ret"
   /\ viol' = viol \cup When(E.hang, "close_hang") \cup When(E.panic # "", "close_panic")
@@ -223,12 +255,12 @@ TErrorsClosed ==
 TEnd == /\ E.ev = "end"
         /\ PrintT(<<"VIOL", ToJson(viol)>>)
         /\ PrintT(<<"STATS", ToJson(st)>>)
-        /\ UNCHANGED <<viol, cfg, pend, asked, touched, store, winLow, accLow, inFlight, flightMark, reqs, closing, joined, finalsOk, refused, st>>
+        /\ UNCHANGED <<viol, cfg, pend, asked, touched, store, winLow, accLow, inFlight, flightMark, reqs, closing, joined, finalsOk, refused, errs, cerr, st>>
 
 Next == /\ l <= Len(Trace)
         /\ l' = l + 1
         /\ (TReset \/ TMark \/ TResetOff \/ TNext \/ TCommitCall \/ TCommitRet \/ TCreq
-            \/ TCloseCall \/ TCloseRet \/ TStore \/ TNote \/ TSdRet \/ TPanic \/ TErrorsClosed \/ TEnd)
+            \/ TCloseCall \/ TCloseRet \/ TStore \/ TNote \/ TErr \/ TSdRet \/ TPanic \/ TErrorsClosed \/ TEnd)
 Spec == Init /\ [][Next]_vars
 Accepted == TLCGet("stats").diameter - 1 = Len(Trace)
 =============================================================================
